@@ -506,6 +506,42 @@ func extractConnLegacy(repo, root string) error {
 		fmt.Fprintf(&b, "  (\"%s\", [%s])%s\n", m, strings.Join(l, ", "), sep)
 	}
 	b.WriteString("]\n\ndef negotiated : List (String × List Nat) := [" + strings.Join(vers, ", ") + "]\n\n")
+	// body shapes of the two framing helpers
+	ez, dk := false, false
+	if fd := connFns["expectZeroSize"]; fd != nil {
+		ast.Inspect(fd.Body, func(n ast.Node) bool {
+			if be, ok := n.(*ast.BinaryExpr); ok && be.Op == token.NEQ {
+				if id, ok := be.X.(*ast.Ident); ok && id.Name == "sz" {
+					if lit, ok := be.Y.(*ast.BasicLit); ok && lit.Value == "0" {
+						ez = true
+					}
+				}
+			}
+			return true
+		})
+	}
+	if fd := connFns["discardOnKafkaError"]; fd != nil {
+		as, dn := false, false
+		ast.Inspect(fd.Body, func(n ast.Node) bool {
+			if c, ok := n.(*ast.CallExpr); ok {
+				switch f := c.Fun.(type) {
+				case *ast.Ident:
+					// discardN(r, size, size): the whole remainder
+					if f.Name == "discardN" && len(c.Args) == 3 {
+						a1, ok1 := c.Args[1].(*ast.Ident)
+						a2, ok2 := c.Args[2].(*ast.Ident)
+						dn = dn || (ok1 && ok2 && a1.Name == a2.Name)
+					}
+				case *ast.SelectorExpr:
+					as = as || f.Sel.Name == "As"
+				}
+			}
+			return true
+		})
+		dk = as && dn
+	}
+	fmt.Fprintf(&b, "/-- protocol.go expectZeroSize contains `sz != 0` -/\ndef expectZeroSizeChecks : Bool := %v\n", ez)
+	fmt.Fprintf(&b, "/-- conn.go discardOnKafkaError = errors.As(err, &kafkaError) guarding discardN(r, size, size) -/\ndef discardOnKafkaErrorDrains : Bool := %v\n\n", dk)
 	b.WriteString("def callsOf (m : String) : List String := ((calls.find? (·.1 == m)).map (·.2)).getD []\n")
 	b.WriteString("def versionsOf (m : String) : List Nat := ((negotiated.find? (·.1 == m)).map (·.2)).getD []\n")
 	b.WriteString("end KV.Gen.ConnLegacy\n")
